@@ -491,3 +491,22 @@ Theorem cap_union_result_valid_refuted : exists a b,
   s2_Cap_IsValid a = true /\ s2_Cap_IsValid b = true /\ s2_Cap_IsValid (s2_Cap_Union a b) = false.
 Proof. exact cap_union_valid_refuted. Qed.
 Print Assumptions cap_union_result_valid_refuted.
+
+(** Interior predicates (r1, r2): the interior of [lo,hi] is the open interval; a set lies in
+    the interior iff all its points do. *)
+Theorem r1_interior_contains_interval_iff : forall a b, wf1 a -> wf1 b ->
+  (r1_Interval_InteriorContainsInterval a b = true <-> forall p, nonnan p -> mem1 b p -> int1 a p).
+Proof. exact r1_interior_contains_interval_spec. Qed.
+Print Assumptions r1_interior_contains_interval_iff.
+
+Theorem r2_interior_contains_point_is_membership : forall r p, wf_r2 r ->
+  nonnan (r2_Point_X p) -> nonnan (r2_Point_Y p) ->
+  (r2_Rect_InteriorContainsPoint r p = true <-> int_r2 r (r2_Point_X p) (r2_Point_Y p)).
+Proof. exact r2_interior_contains_point_mem. Qed.
+Print Assumptions r2_interior_contains_point_is_membership.
+
+Theorem r2_interior_contains_iff_all_points_interior : forall a b, wf_r2 a -> valid_r2 b ->
+  (r2_Rect_InteriorContains a b = true <->
+   forall px py, nonnan px -> nonnan py -> mem_r2 b px py -> int_r2 a px py).
+Proof. exact r2_interior_contains_iff. Qed.
+Print Assumptions r2_interior_contains_iff_all_points_interior.
